@@ -34,6 +34,8 @@ import YarlProofs.C03Bracket
   `BracketTextIn`, `BracketText`, `HostFixB`, `authTextB`, `NetlocCanonB`, `AuthInputB`, `UOp.NetArgsB`
                    (Lemmas/BrHost.lean, C03Bracket.lean) — the same vocabulary for bracketed hosts that are NOT IPv6
                    addresses (IPvFuture "[v1.a:b]", "[g::1]", "[a:b]"), see the section "bracketed hosts …" below.
+
+  Continued in C03HeadlineMore3.lean (sentence 2 mechanism by mechanism: GAPS 5; `encoded=True` / all entry points: GAPS 6).
 -/
 set_option linter.unusedVariables false
 namespace Yarl
@@ -850,21 +852,60 @@ GAPS:
     same root under property C07, F-C07-default-port — witness URL('http://a:80/p') —, still no C03 entry.)
  4. "identical … path" for the STORED path is false for "" in front of '?'/'#' under an authority
     (C03_headline_identical_stored_path_fails_for); `raw_path` and `==` agree, `raw_parts` do not.
- 5. PARTLY CLOSED.  Idempotence is still stated as "URL(str(u')) = u'" (C03_headline_idempotent); there are still no
-    per-mechanism theorems in C03.  What the new theorems add at URL level: CASE FOLDING — the input-side theorems
-    take the host in any letter case (`HostTextOK`) and `build` a scheme in any case (C03_headline_build_fixed_point,
-    `u.scheme = lower a.scheme`), so "folded once, unchanged by the second pass" is part of
-    C03_headline_constructor_fixed_point / _build_fixed_point; DEFAULT-PORT DROPPING — the stored netloc / `==`
-    change in the second pass exactly when an explicit default port is stored
-    (C03_headline_equal_iff_no_default_port), and never after `build` (C03_headline_valid_host_build); for a bracketed
+ 5. CLOSED (within the limits of item 9) by C03_mech_case_folding, C03_mech_requote, C03_mech_requote_stored,
+    C03_mech_requote_both_backends, C03_mech_dot_segments (+ C03_mech_dot_segments_stored), C03_mech_host,
+    C03_mech_host_idna, C03_mech_default_port, C03_mech_second_pass_identity (+ _reachable, _from_valid_input),
+    C03_mech_bracketed_host (C03Mech.lean; every theorem instantiated on concrete URLs, both backends, in
+    C03MechChecks.lean), see C03_headline_mech_case_folding, C03_headline_mech_requote, C03_headline_mech_requote_stored,
+    C03_headline_mech_dot_segments, C03_headline_mech_host, C03_headline_mech_host_idna, C03_headline_mech_default_port,
+    C03_headline_second_pass_identity, C03_headline_second_pass_identity_from_valid_input,
+    C03_headline_mech_bracketed_host (C03HeadlineMore3.lean).  Proved: there is now ONE THEOREM PER MECHANISM named in
+    sentence 2, each about the SECOND pass (`s = str(u)`, `pt = split_url(s)`, `np = split_netloc(pt.netloc)`) and each
+    saying that this mechanism of `encode_url` returns the piece it is handed: CASE FOLDING — scheme piece = stored
+    scheme, lower-case; host piece = stored raw_host, ASCII, address part lower-case, whole host lower-case unless it is
+    an IP literal with a `%zone`; ENCODING / DECODING — PATH_/QUERY_/FRAGMENT_REQUOTER and REQUOTER (user, password:
+    `REQUOTER(user) or None`) return their pieces, the pieces are the stored components, on the stored record and for
+    both backends; DOT-SEGMENT REMOVAL — under an authority the stored path has no dot segment and is a fixed point of
+    `normalize_path` AND of RFC 3986 §5.2.4 (`Rfc.removeDotSegments`), and the guarded call
+    `if netloc and "." in path` returns the path piece; HOST / IDNA — `_encode_host(raw_host)` is `raw_host` (bracketed
+    iff it contains ':') for EVERY oracle, i.e. the second pass never consults IDNA; for an IDN input (constructor,
+    shape of item 2, under the assumption of item 8) the stored A-label is ASCII and `_encode_host` of it is itself even
+    with `Oracles.empty`; DEFAULT-PORT DROPPING — the authority piece never carries the default port, the second pass
+    stores it unchanged, the stored netloc changes in that pass exactly when an explicit default port is stored
+    (`NoDefaultPort`; then explicit_port becomes None, port stays: item 3), and nothing changes afterwards; COMBINED —
+    `encode_url(str(u))` stores exactly the five split pieces, `netBlock` / `encPath` / `encQuery` / `encFragment` each
+    map their piece to itself (domain `NetlocCanonB`).  Hypotheses: those of C03_headline_identical_string_form
+    (`ReachC` — the cited theorems need only `CanonUrl e.b u` —, `NetlocCanon` resp. `NetlocCanonB`, `SchemeOK'`,
+    `C03Guards`); C03_headline_second_pass_identity_from_valid_input has input-side hypotheses only (`ReachV`).
+    Two corners where a naive reading of sentence 2 is FALSE, both inside the domain, neither a defect:
+    "the stored host is lower-case" fails for an upper-case zone id, URL('http://[FE80::1%Eth0]/p') keeps 'Eth0'
+    (C03_headline_mech_case_folding_fails_for_zone_id, cites C03_mech_case_folding_zone_counterexample);
+    "`normalize_path(path) = path`" fails WITHOUT an authority, URL('a/./b') keeps its dot segment in both passes
+    (C03_headline_mech_dot_segments_fails_without_authority, cites C03_mech_dot_segments_no_authority); in both cases the
+    second pass is still the identity.
+    Still true from before: idempotence as "URL(str(u')) = u'" is C03_headline_idempotent; the input-side theorems take
+    the host in any letter case (`HostTextOK`) and `build` a scheme in any case (C03_headline_build_fixed_point,
+    `u.scheme = lower a.scheme`); `build` never stores a default port (C03_headline_valid_host_build); for a bracketed
     non-IPv6 host the dropped default port also drops the brackets of a host without ':' — the printed string is still
-    a fixed point (C03_headline_bracketed_host_default_port, item 2 (i)); IDNA — only
-    under the assumption of item 8 and for the shapes of item 2 (C03_headline_idna_constructor_fixed_point: the
-    second parse takes the ASCII path and does not reach IDNA).  UNCHANGED: dot-segment removal (C15 has
-    normalizePath idempotence) and "decoding" (quoter level: cOut_requote_fixed in Lemmas/Canon.lean) are not
-    linked to C03 beyond the fixed-point theorem itself.
- 6. `encoded=True` entry points and `preEncodedUrl` are outside `ReachC` (and outside the property's "valid
-    input" only if one reads it so): no fixed-point statement for them.
+    a fixed point (C03_headline_bracketed_host_default_port, item 2 (i); restated as the last clause of
+    C03_headline_mech_bracketed_host).
+ 6. PARTLY CLOSED by C03_mech_encoded_true_fixed_point, C03_mech_encoded_true_noncanonical_counterexample (C03Mech.lean)
+    and reachE_of_record (ReachE.lean: `ReachE` = the closure of ALL entry points of the model, the four `encoded=True`
+    ones included), see C03_headline_encoded_true_fixed_point, C03_headline_all_entry_points_fixed_point,
+    C03_headline_encoded_true_fails_for_noncanonical (C03HeadlineMore3.lean).  `encoded=True` entry points are still
+    outside `ReachC` / `ReachV`.  Proved: (i) for `s = str(u)` with `u` in the C03 domain (`CanonUrl`, `NetlocCanonB`,
+    `SchemeOK'`, `C03Guards`), `URL(s, encoded=True)` stores the same five parts as `URL(s)` (it is `URL(s)` without the
+    pre-filled cache), is `==` to it, prints `s`, and `s` is a fixed point of both constructors; (ii) the fixed-point
+    theorem itself (C03_fixed_point_of_canonB) needs no reachability, so it holds for a URL made through ANY entry point
+    whose STORED RECORD satisfies the four hypotheses.  For `encoded=True` objects the property text is FALSE without
+    that: URL('http://EXAMPLE.com/a/../b c', encoded=True) is a `ReachE` URL, prints its text verbatim, and
+    URL(str(v)) prints 'http://example.com/b%20c' (C03_headline_encoded_true_fails_for_noncanonical; not a defect,
+    `encoded=True` is the caller's promise).  STILL OPEN: the four hypotheses are hypotheses on the stored record, and
+    `ReachE` cannot supply them (every cache-free record of Python strings is in `ReachE`: reachE_of_record); there is
+    NO input-side characterisation of the `encoded=True` texts that give a canonical record (no `ReachEX` instance for
+    C03), and no own theorem for `build(encoded=True)`, `with_path(…, encoded=True)`, `joinpath(…, encoded=True)` — for
+    those the reader must establish `CanonUrl` / `NetlocCanonB` of the result (decidable per record:
+    `canonUrlB_sound`, as in C03MechChecks.lean).
  7. CLOSED by C03_fixed_point_eq (C03Netloc.lean), see C03_headline_equal_iff_no_default_port (and the `==`
     clauses of C03_headline_constructor_fixed_point, _build_fixed_point, _reachable_from_valid_input,
     _op_sequence_from_valid_input).  For every reachable URL with the hypotheses of C03_headline_identical_string_form,
@@ -876,6 +917,30 @@ GAPS:
     says the check is decidable per run but not implemented).  Without it the fixed point fails
     (C03_headline_idna_fails_for_insane_answer — hypothetical answers, not observed).  For `with_host` only "the
     answer is non-empty" is assumed (the library validates the rest itself).
+    (Added at the More3 refresh: the sentence "not checked by the differential harness" is out of date — per DESIGN.md
+    the harness now tests every answer the real `idna` package / stdlib codec gives during a run against `IdnaSaneAt` /
+    `IdnaRoundTripAt` and records counts and violations in the evidence (harness/core.py `check_oracle_assumption`,
+    `coverage.oracle_assumptions_checked`).  That is a per-run check, not a proof; it found non-sane stdlib-fallback
+    answers for hosts such as 'a／b' that yarl rejects — such hosts are outside the per-host hypothesis `IdnaSaneAt e.o h`.
+    The doc comment of C16Idn.lean still says "not implemented".  C03_headline_mech_host_idna (C03HeadlineMore3.lean)
+    rests on the same assumption.)
+ 9. NEW (limits of the per-mechanism theorems of item 5 and of item 6, as stated by C03Mech.lean).
+    (a) The per-mechanism theorems (case folding, requoting, dot segments, host, default port) are proved for
+    `NetlocCanon`; for a bracketed non-IPv6 authority there is C03_headline_mech_bracketed_host (host text, case, port,
+    shape of the authority piece) and the combined C03_headline_second_pass_identity (`NetlocCanonB`), but no separate
+    per-requoter statement for its userinfo.
+    (b) IDNA: the per-mechanism statement for an IDN INPUT exists only for the constructor on the shape
+    `scheme://h/path#fragment` and only under `IdnaSaneAt` (item 8); for every other way an A-label gets stored the
+    statement is C03_headline_mech_host applied to a record with `NetlocCanon` (C03_headline_idna_valid_host).
+    (c) "decoding" is covered as the decoding half of the REQUOTERS (decode superfluous escapes, re-encode); the
+    DECODED accessors (`path`, `query_string`, `user`, … — the unquoters) are not normalisation passes and no C03 theorem
+    speaks about them (property C06).
+    (d) C03_headline_second_pass_identity_from_valid_input states only "the re-parsed URL stores the five split pieces";
+    the stage-by-stage clauses (`netBlock`, `encPath`, …) are stated with `ReachC` + `NetlocCanonB` only (the reader
+    composes C03_reachV_reachC / C03_reachV_netlocCanon, as the cited theorem does).
+    (e) All per-mechanism theorems inherit `C03Guards` and `SchemeOK'` (they go through `str` and `split_url` of the
+    printed string); only C03_headline_mech_requote_stored and the first clause of C03_headline_mech_dot_segments are
+    about the stored record alone.
 -/
 
 end Yarl
